@@ -28,7 +28,7 @@ ASSUMPTIONS = [
     "the script stops at the first call that raises anything but solve()'s own failure; rows logged so far are still checked",
     "ties in penalty: the container may hold any row of minimum penalty",
 ]
-REQUIRED_CLASSES = ["rows-with-inactive-knob-reloaded", "call:step", "call:solve", "call:reload-row", "call:reload-tag", "call:tag", "call:disable", "call:enable",
+REQUIRED_CLASSES = ["log()-looked-at-between-calls", "rows-with-inactive-knob-reloaded", "call:step", "call:solve", "call:reload-row", "call:reload-tag", "call:tag", "call:disable", "call:enable",
                     "call:clear_log", "log:penalty-increase", "log:take_best-reload", "solve:failed", "solve:succeeded",
                     "rows-reloaded", "log:take_best-reload-after-an-earlier-solve-succeeded"]
 
@@ -95,6 +95,17 @@ def cases(draw):
         else:
             script.append({"op": "clear_log"})
             tags = []
+    # after which calls the user LOOKS at the log table (a table handed out earlier must not stand in for the current log:
+    # looking, clearing, growing again to the same length, looking again)
+    looks = draw(st.lists(st.booleans(), min_size=len(script), max_size=len(script)))
+    for c, lk in zip(script, looks):
+        c["look"] = lk
+    # and an episode made for it: look, clear_log, the same call again, look
+    if draw(st.integers(0, 3)) == 0:
+        again = {"op": "step", "n": draw(st.integers(1, 2)), "take_best": False, "broyden": False, "look": True}
+        script.insert(0, dict(again))
+        script.insert(1, {"op": "clear_log", "look": False})
+        script.insert(2, dict(again))
     spec["script"] = script
     spec["kind"] = "script"
     return spec
@@ -225,6 +236,22 @@ def exec_case(ctx, spec):
         lens = {k: len(v) for k, v in opt._log.items()}
         if len(set(lens.values())) != 1:
             return finish(Failure("C15:log-columns-have-different-lengths", dict(where, lengths=lens)))
+        # the table log() hands out is looked at after drawn calls (a user looks at it between calls) and must show the
+        # rows recorded now - also after the log was cleared and has grown again
+        if not call.get("look", True):
+            continue
+        try:
+            lt = opt.log()
+            ok = np.array_equal(np.asarray(lt["vary"], dtype=float).reshape(len(opt._log["penalty"]), -1),
+                                np.array(opt._log["knobs"], dtype=float).reshape(len(opt._log["penalty"]), -1)) and \
+                np.array_equal(np.asarray(lt["penalty"], dtype=float), np.array(opt._log["penalty"], dtype=float)) and \
+                list(lt["vary_active"]) == list(opt._log["vary_active"]) and list(lt["target_active"]) == list(opt._log["target_active"]) and \
+                len(lt) == len(opt._log["penalty"])
+        except Exception as e:
+            return finish(Failure(f"C15:log()-raises:{type(e).__name__}", dict(where, raised=repr(e)[:200])))
+        if not ok:
+            return finish(Failure("C15:log()-table-differs-from-recorded-rows", dict(where, after_call=ci)))
+        classes.add("log()-looked-at-between-calls")
     # ---- every row reproduces
     try:
         log_t = opt.log()
